@@ -27,7 +27,7 @@ MiscClauses(s, e) ==
   IF e.outcome = "ok"
   THEN { Cl("RootIdentity", t.rootObj = s.rootObj), Cl("RegistryQuiescent", t.reg) }
        \cup (IF Sync(s) THEN {Cl("Sync", Sync(t))} ELSE {})
-       \cup (IF e.op \in {"put_line_comment", "par"} THEN {Cl("NothingElse", t.liveS = s.liveS)}
+       \cup (IF e.op \in {"put_line_comment", "par", "unpar"} THEN {Cl("NothingElse", t.liveS = s.liveS)}
              ELSE IF e.op = "put_docstr" THEN {Cl("NothingElse", OnlyChangedAt(s.liveS, t.liveS, e.path, {"body"}))}
              ELSE {})
   ELSE { Cl("AtomicOnRaise.tree", t.liveP = s.liveP /\ t.liveS = s.liveS), Cl("AtomicOnRaise.text", t.text = s.text),
